@@ -136,6 +136,20 @@ def gen_T14():
     outer = [n for n in ast.walk(rp) if isinstance(n, ast.If) and ast.unparse(n.test) == 'self.finalEvaled']
     need(len(outer) == 1 and len(outer[0].orelse) == 2 and outer[0].orelse[0] is ign_ifs[0]
          and ast.unparse(outer[0].orelse[1]) == 'self.evalArgs()', 'reply (not yet evaluated): expected the msg.ignored test, then evalArgs')
+    # reply() on an evaluated proxy: hand the text to the parent proxy FIRST; the noLengthCheck test comes second (root only)
+    need(len(outer[0].body) == 1 and isinstance(outer[0].body[0], ast.Try), 'reply (evaluated): expected one try/finally')
+    first = outer[0].body[0].body[0]
+    need(isinstance(first, ast.If) and ast.unparse(first.test) == 'isinstance(self.irc, self.__class__)'
+         and 'return self.irc.reply(s, noLengthCheck=self.noLengthCheck, **replyArgs)' in ast.unparse(first),
+         'reply (evaluated): the first test must be isinstance(self.irc, self.__class__) handing the text to the parent proxy')
+    need(len(first.orelse) == 1 and isinstance(first.orelse[0], ast.If) and ast.unparse(first.orelse[0].test) == 'self.noLengthCheck',
+         'reply (evaluated): expected `elif self.noLengthCheck:` second')
+    rsrc = ast.unparse(rp)
+    for frag in ('self.action = self.action or action', 'self.notice = self.notice or notice', 'self.private = self.private or private',
+                 'self.noLengthCheck = noLengthCheck or self.noLengthCheck or self.action',
+                 'replyArgs = dict(to=self.to, notice=self.notice, action=self.action, private=self.private, prefixNick=self.prefixNick, stripCtcp=stripCtcp)'):
+        need(frag in rsrc, 'reply: sticky attribute update changed (missing %r)' % frag)
+    need('self.to = self.to or to' in ast.unparse(find_def(cb_t, '_getTarget', 'RichReplyMethods')), '_getTarget: self.to update changed')
     ut = tree('plugins/Utilities/plugin.py')
     ig = find_def(ut, 'ignore', 'Utilities')
     need([ast.unparse(x) for x in ig.body[1:]] == ["msg.tag('ignored')", 'irc.noReply()'], 'Utilities.ignore: shape changed')
